@@ -530,7 +530,10 @@ class Check(PropertyCheck):
                   "nothing behind a close frame (transcribed: streamEvents stops), so the branch is unreachable through it. "
                   "Oracle abstentions: after a protocol violation BY A PEER only the items sent before it are owed (prefix "
                   "check, nothing is skipped); the single Skip is a stray CONTINUATION frame the harness peer's own deflate "
-                  "compressor refuses to serialise. No findings; three defects repaired in /repo (two by this check).")
+                  "compressor refuses to serialise. permessage-deflate itself stays a parameter of the proofs; the harness peers are "
+                  "configured from the negotiated Sec-WebSocket-Extensions value (window bits, context takeover) and reject what "
+                  "the negotiation forbids; window bits 8 are not generated (wsproto and zlib refuse them: the layer's own "
+                  "finalize() would raise ValueError at start). No findings; three defects repaired in /repo (two by this check).")
     technique = "Lean 4 proof (induction over event sequences, byte strings and frame streams) + differential model-vs-code correspondence (Fragmentizer, full layer, HTTP upgrade end to end, wsproto frame codec)"
     rule = ("san: byte soups over UTF-8 lead/continuation boundary values; frag: (is_text, original fragment lengths, new content) "
             "with 1-4 byte characters straddling multiples of FRAGMENT_SIZE and original fragment boundaries, sizes 0..3*FS+3, "
@@ -540,6 +543,9 @@ class Check(PropertyCheck):
             "(transparent mode) upgrade, with WebSocket frames sharing the TCP segment of the 101 response / the upgrade "
             "request, payloads and segments ending in CR, LF, CRLF, 0x00, 0xff, ..., every cut of these short streams "
             "(model fed with what the layer's wsproto connections received, oracle judges against what the peers sent); wire: "
+            "deflate: negotiated permessage-deflate parameter sets (each parameter alone and in pairs, every position, window bits "
+            "9/10/11/15) x messages repeating earlier data inside one message and across messages at distances around 2^bits, both "
+            "directions, peers configured from the negotiated header; "
             "frame streams (masked/unmasked, 7/16/64-bit lengths, control frames, close codes) incl. bad RSV/opcode/mask/"
             "length form/sequencing, a mutated header byte, truncation. distinct = distinct case; non-trivial = "
             "at least one frame/fragment.")
